@@ -1,0 +1,22 @@
+//! Verification instrumentation, compiled only with the `verif_hooks` feature.
+//!
+//! When the environment variable `BITBYBIT_VERIF_DUMP_DIR` is set, every token stream a macro is
+//! about to return is also written to `<dir>/<kind>-<TypeName>-<n>.rs`. Nothing is changed in the
+//! token stream itself.
+
+use std::io::Write;
+use std::sync::atomic::{AtomicUsize, Ordering};
+
+static COUNTER: AtomicUsize = AtomicUsize::new(0);
+
+pub(crate) fn dump(kind: &str, type_name: &str, expansion: &str) {
+    let Ok(dir) = std::env::var("BITBYBIT_VERIF_DUMP_DIR") else {
+        return;
+    };
+    let n = COUNTER.fetch_add(1, Ordering::SeqCst);
+    let pid = std::process::id();
+    let path = std::path::Path::new(&dir).join(format!("{kind}-{type_name}-{pid}-{n}.rs"));
+    if let Ok(mut file) = std::fs::File::create(path) {
+        let _ = file.write_all(expansion.as_bytes());
+    }
+}
